@@ -451,6 +451,13 @@ static void state_line(void)
 static void on_event(void* ctx, const struct detsched_event* ev)
 {
     (void)ctx;
+    if (g_cosim >= 2) {
+        // every scheduler decision with the set of enabled threads (for the systematic enumeration of schedules)
+        printf("Q %d en=", ev->tid);
+        int n = detsched_thread_count(), first = 1;
+        for (int t = 0; t < n; ++t) { int obj = -1, en = 0; if (detsched_thread_pending(t, &obj, &en) >= 0 && en) { printf("%s%d", first ? "" : ",", t); first = 0; } }
+        printf("\n");
+    }
     if (!g_cosim || !g_in_window || !g_rt) return;
     printf("D %d %s %s\n", ev->tid, detsched_kind_name(ev->kind), ev->label && ev->label[0] ? ev->label : "-");
     state_line();
